@@ -4,14 +4,14 @@ META = dict(
     technique='CBMC code contracts (DFCC) on the mechanically extracted BoundingBox<2> tests (concrete IEEE arithmetic for the buffered comparison; alias wrapper by call protocol)',
     level_text='Partial. Proof for all finite corners/points and every tolerance in [0,1]: the bounding-box test used to cull slabs and faults never '
                'rejects a point of the closed core box, and in spherical worlds it also accepts a point whose 2-pi longitude alias lies in the box. '
-               'Proof for 18 area-feature models (uniform/adiabatic/linear/chapman/constant-age temperature, uniform and random composition, uniform raw velocity): after parse_entries '
+               'Proof for the three area features and 18 of their models (uniform/adiabatic/linear/chapman/constant-age temperature, uniform and random composition, uniform raw velocity): after parse_entries '
                'the global bounds tested before the depth surfaces are evaluated are exactly the minimum of the min-depth surface and the maximum of the max-depth surface.',
-    level_note='Trusted: translator, CBMC. Not covered: that the box built in parse_entries contains the slab (trench coordinates extended by '
+    level_note='Trusted: translator, CBMC; in the parse_entries units every callee is an arbitrary-result body that may raise an exception and writes nothing else (for Interface::get_coordinates and add_vector_unique, which do write other fields of the object, this is an assumption about the fields the postcondition speaks of). Not covered: that the box built in parse_entries contains the slab (trench coordinates extended by '
                'length + thickness vs. the Bezier trench curve), the depth cut-off from maximum length + thickness, that Objects::Surface computes minimum/maximum over its nodal values and interpolates between them, '
                'the nearest-triangle search: the functions that build and use them (SubductingPlate/Fault parse_entries and properties, '
                'Surface) are not under contract here (see DESIGN 15), so the two C07 candidates of DESIGN 7.1 are not decided by this check.',
-    scope='BoundingBox<2>::point_inside_implementation, BoundingBox<2>::point_inside; parse_entries of 18 area-feature models (depth bounds wiring)',
-    not_covered=['box construction and buffers in parse_entries', 'depth cut-off derived from slab length and thickness', 'Objects::Surface itself (minimum/maximum, kd-tree/nearest-triangle search)', 'depth bounds wiring of the models with loops in parse_entries (uniform grains, half space, plate model, random grains) and of the three feature classes themselves'],
+    scope='BoundingBox<2>::point_inside_implementation, BoundingBox<2>::point_inside; parse_entries of ContinentalPlate/OceanicPlate/MantleLayer and of 18 of their models (depth bounds wiring)',
+    not_covered=['box construction and buffers in parse_entries', 'depth cut-off derived from slab length and thickness', 'Objects::Surface itself (minimum/maximum, kd-tree/nearest-triangle search)', 'depth bounds wiring of the models with loops in parse_entries (uniform grains, half space, plate model, random grains)'],
     enforced_elsewhere={'BoundingBox2_point_inside_implementation': 'C07/box_impl'},
 )
 TU = 'source/world_builder/features/subducting_plate.cc'
@@ -49,6 +49,18 @@ for _fam, _fdir, _kind, _file in _MODELS:
                                        **({'NEED_WORLD': 1} if _file in ('adiabatic', 'chapman', 'linear', 'plate_model_constant_age') else {}),
                                        **({'VEL3': 1} if _file == 'uniform_raw' else {})),
         expect_fail=['REACHABILITY-GUARD']))
+
+# ... and of the three area features themselves
+for _fam, _fdir in [('ContinentalPlate', 'continental_plate'), ('OceanicPlate', 'oceanic_plate'), ('MantleLayer', 'mantle_layer')]:
+    _mt = 'Features_%s' % _fam
+    UNITS.append(dict(
+        name='%s_feature_bounds' % _fdir, enforce=_mt + '_parse_entries', contracts='c07_model_bounds.c', harness='h_model_bounds',
+        targets=[dict(tu='source/world_builder/features/%s.cc' % _fdir, qual='WorldBuilder::Features::%s::parse_entries' % _fam)],
+        stub_prefixes=['Parameters_', 'Objects_Surface_', 'Features_%sModels_' % _fam],
+        stub=['Features_Interface_get_coordinates', 'Features_FeatureUtilities_add_vector_unique', 'CoordinateSystems_Interface_natural_coordinate_system'],
+        replace=['Parameters_get_unique_pointers__ret_Features_%sModels_%s_Interface' % (_fam, k_) for k_ in ('Temperature', 'Composition', 'Grains', 'Velocity')],
+        auto_stubs=True, auto_loops=True, outline_fp='all',
+        defines={'MTYPE': _mt, 'MFUNC': _mt + '_parse_entries', 'WB_VEC_CAP': 2, 'NEED_WORLD': 1, 'FEATURE_SIG': 1, 'FAMX': _fam}, expect_fail=['REACHABILITY-GUARD']))
 
 
 # ----------------------------------------------------------------------------- native replay oracle
